@@ -204,5 +204,16 @@ theorem c13_params_only_by_governance (wall : Nat) (s : State) (m : Msg) :
   · intro h; cases h
   · rename_i hs; intro _; simpa using hs
 
+/-- the same for a proposal carrying several messages: it is executed only if the gov module account is the
+signer of every one of them -/
+theorem c13_proposal_only_by_governance (wall : Nat) (s : State) (msgs : List Msg) :
+    (govExecAll wall s msgs).2 = true → ∀ m ∈ msgs, m.signer = some Mgov := by
+  unfold govExecAll
+  split
+  · rename_i hall
+    intro _ m hm
+    simpa using List.all_eq_true.mp hall m hm
+  · intro h; cases h
+
 end C13
 end Mainchain
